@@ -2,60 +2,227 @@
 """Regenerates coq/gen/GenRabin.v from serde_avro_fast/src/schema/safe/rabin.rs:
 EMPTY64, the FP_TABLE entries, the per-byte step expression of Rabin::write,
 the initial state of Default and the byte order of finish()."""
-import re, sys
-sys.path.insert(0, __file__.rsplit("/", 1)[0])
-from rustexpr import parse, to_gallina, TranslateError
+import os, re, sys
+sys.path.insert(0, os.path.dirname(os.path.abspath(__file__)))
+from rustexpr import to_gallina, TranslateError
+import rustmatch as R
+import rustast as A
+import rustnorm as N
+from rustmatch import ShapeError
 
-def strip_tests(src):
-    i = src.find("#[cfg(test)]")
-    if i < 0:
-        return src
-    # drop the test module body (balanced braces after 'mod tests')
-    j = src.find("{", src.find("mod", i))
-    depth, k = 0, j
-    while k < len(src):
-        if src[k] == "{":
-            depth += 1
-        elif src[k] == "}":
-            depth -= 1
-            if depth == 0:
-                break
-        k += 1
-    return src[:i] + src[k + 1:]
+def the_fn(items, name, owner):
+    fns = [f for f in items.fns if f.name == name and f.owner == owner and f.body is not None and not f.nested]
+    if len(fns) != 1:
+        raise TranslateError("fn %s of %s: %d definitions" % (name, owner, len(fns)))
+    return fns[0]
+
+def to_rustexpr(e):
+    """rustast expression -> the tuples of rustexpr.py (the fragment of the CRC step)"""
+    k = e[0]
+    if k == "lit":
+        iv = N.int_value(e[1])
+        if iv is None:
+            raise TranslateError("literal %s in the step expression" % e[1])
+        return ("lit", iv[0])
+    if k == "path" and len(e[1]) == 1 and e[1][0][1] is None:
+        return ("var", e[1][0][0])
+    if k == "field":
+        return ("field", to_rustexpr(e[1]), e[2])
+    if k == "binary" and e[1] in (">>", "<<", "^", "&", "|"):
+        return ("bin", e[1], to_rustexpr(e[2]), to_rustexpr(e[3]))
+    if k == "cast" and len(e[2][1]) == 1:
+        return ("cast", e[2][1][0], to_rustexpr(e[1]))
+    if k == "index":
+        return ("index", to_rustexpr(e[1]), to_rustexpr(e[2]))
+    if k == "unary" and e[1] == "*":
+        return to_rustexpr(e[2])                  # the byte behind the reference the iterator yields
+    raise TranslateError("unsupported construct in the step expression: %s" % A.text(e)[:120])
+
+ITER_SUFFIXES = ([], ["iter"], ["iter", "copied"], ["iter", "cloned"], ["into_iter"], ["iter", "copied", "into_iter"])
+
+def iter_over(e, param):
+    """is e an iteration over the bytes of the slice parameter, front to back?"""
+    chain = []
+    while e[0] == "mcall" and not e[4]:
+        chain.insert(0, e[2])
+        e = e[1]
+    return N.is_var(e, param) and chain in [list(x) for x in ITER_SUFFIXES]
+
+def byte_binder(pat):
+    """`&b` / `b` / `&byte` .. -> the name bound to the byte (or to the reference to it)"""
+    while pat[0] == "p_ref":
+        pat = pat[2]
+    if pat[0] == "p_ident" and pat[4] is None:
+        return pat[3]
+    raise TranslateError("loop pattern not understood: %s" % A.pat_text(pat))
+
+STATE = ("field", N.path_of("self"), "result")
+
+def step_of_write(fn, body):
+    """symbolic execution of Rabin::write: -> the expression (over `s` and `b`) that one input byte applies to the state"""
+    params = fn.params[1:] if fn.has_self() else fn.params
+    if len(params) != 1 or len(params[0][0]) != 1:
+        raise TranslateError("Rabin::write: parameters not understood")
+    data = params[0][0][0]
+    S, B = N.path_of("s"), N.path_of("b")
+    env = {}                       # local name -> symbolic value
+    state = {"v": S}               # current symbolic value of self.result
+    step = []
+    def ev(e, env):
+        def go(x):
+            if x == STATE:
+                return state["v"]
+            if x[0] == "path" and len(x[1]) == 1 and x[1][0][1] is None and x[1][0][0] in env:
+                return env[x[1][0][0]]
+            return N.map_expr(x, go)
+        return go(e)
+    def run_body(stmts, env, carried):
+        """executes straight-line statements; returns the value of the block (or None)"""
+        val = None
+        for i, st in enumerate(stmts):
+            val = None
+            if st[0] == "let" and st[1][0] == "p_ident" and st[3] is not None and st[4] is None:
+                env[st[1][3]] = ev(st[3], env)
+            elif st[0] in ("semi", "expr") and st[1][0] == "assign" and st[1][1] in ("=", "^="):
+                lhs, rhs = st[1][2], ev(st[1][3], env)
+                if st[1][1] == "^=":
+                    rhs = ("binary", "^", ev(lhs, env), rhs)
+                if lhs == STATE:
+                    state["v"] = rhs
+                elif N.is_var(lhs) and lhs[1][0][0] in env:
+                    env[lhs[1][0][0]] = rhs
+                else:
+                    raise TranslateError("assignment to %s" % A.text(lhs))
+                carried.add(A.text(lhs))
+            elif st[0] == "expr" and i + 1 == len(stmts):
+                val = ev(st[1], env)
+            else:
+                raise TranslateError("statement not understood in Rabin::write: %s" % st[0])
+        return val
+    stmts = list(body[1])
+    seen_loop = False
+    for st in stmts:
+        e = st[1] if st[0] in ("semi", "expr") else None
+        if e is not None and e[0] == "for":
+            if seen_loop or not iter_over(e[2], data):
+                raise TranslateError("Rabin::write: loop not over the bytes of the input, in order")
+            seen_loop = True
+            b = byte_binder(e[1])
+            # the loop-carried variable starts as `s` (the state, or a local initialised from it)
+            pre_state, pre_env = state["v"], dict(env)
+            loc = dict(env); loc[b] = B
+            for n, v in pre_env.items():
+                if v == S:
+                    loc[n] = S
+            if pre_state != S and S not in pre_env.values():
+                raise TranslateError("Rabin::write: the state is modified before the loop")
+            state["v"] = S
+            carried = set()
+            run_body(e[3][1], loc, carried)
+            if len(carried) != 1:
+                raise TranslateError("Rabin::write: %d variables carried by the loop" % len(carried))
+            c = carried.pop()
+            if c == A.text(STATE):
+                if pre_state != S:
+                    raise TranslateError("Rabin::write: the state is modified before the loop")
+                step.append(state["v"])
+                state["v"] = ("fold",)
+            else:
+                if pre_env.get(c) != S:
+                    raise TranslateError("Rabin::write: the accumulator is not initialised from the state")
+                step.append(loc[c])
+                env[c] = ("fold",)
+                state["v"] = pre_state
+        elif e is not None and e[0] == "assign" and e[1] == "=" and e[2] == STATE and e[3][0] == "mcall" and e[3][2] == "fold" \
+                and len(e[3][4]) == 2 and e[3][4][1][0] == "closure" and len(e[3][4][1][2]) == 2:
+            if seen_loop or not iter_over(e[3][1], data):
+                raise TranslateError("Rabin::write: fold not over the bytes of the input, in order")
+            seen_loop = True
+            if ev(e[3][4][0], env) != S:
+                raise TranslateError("Rabin::write: the fold does not start from the state")
+            clo = e[3][4][1]
+            acc = clo[2][0][0]
+            if acc[0] != "p_ident" or acc[4] is not None:
+                raise TranslateError("Rabin::write: accumulator pattern not understood")
+            loc = {acc[3]: S, byte_binder(clo[2][1][0]): B}
+            val = run_body(N.as_block(clo[4])[1], loc, set())
+            if val is None:
+                raise TranslateError("Rabin::write: the fold closure has no value")
+            step.append(val)
+            state["v"] = ("fold",)
+        else:
+            carried = set()
+            run_body([st], env, carried)
+    if len(step) != 1 or state["v"] != ("fold",):
+        raise TranslateError("Rabin::write: the state after the call is not the fold of one step over the input")
+    return step[0]
+
+def canon_fn_text(fn, env, path, self_type):
+    body = N.normalize_body(A.parse_block_tokens(fn.body), env, path, self_type)
+    outer = {}
+    n = 0
+    for pat, ty in fn.params:
+        if ty and len(pat) == 1:
+            outer[pat[0]] = ["__p%d" % n]; n += 1
+    return N.canonical_text(body, outer, statements=True)
 
 def translate(path):
-    src = strip_tests(open(path).read())
-    m = re.search(r"const\s+EMPTY64\s*:\s*u64\s*=\s*(0x[0-9A-Fa-f_]+|\d[\d_]*)\s*;", src)
-    if not m:
+    try:
+        return translate_(path)
+    except ShapeError as e:
+        raise TranslateError(str(e))
+
+def translate_(path):
+    apath = os.path.abspath(path)
+    items = A.scan_items(R.tokenize(open(path).read()))
+    env = N.ConstEnv(None)
+    env.files[apath] = items
+    empty = env.lookup("EMPTY64", apath)
+    if not isinstance(empty, int):
         raise TranslateError("EMPTY64 not found")
-    empty = int(m.group(1).replace("_", ""), 0)
-    m = re.search(r"const\s+FP_TABLE\s*:\s*&?\s*\[\s*u64\s*;\s*(\d+)\s*\]\s*=\s*&?\s*\[(.*?)\]\s*;", src, re.S)
-    if not m:
+    defs = items.consts.get("FP_TABLE", [])
+    if len(defs) != 1:
         raise TranslateError("FP_TABLE not found")
-    n = int(m.group(1))
-    body = re.sub(r"//[^\n]*", "", m.group(2))
-    entries = [int(x.replace("_", ""), 0) for x in re.findall(r"0x[0-9A-Fa-f_]+|\d[\d_]*", body)]
+    tbl = env.lookup("FP_TABLE", apath)
+    if not (isinstance(tbl, tuple) and tbl[0] == "bytes"):
+        raise TranslateError("FP_TABLE is not a table of integer constants")
+    entries = list(tbl[1])
+    m = re.fullmatch(r"(?:& )?\[ u64 ; (.+) \]", " ".join(defs[0][0]))
+    if not m:
+        raise TranslateError("FP_TABLE: type not understood")
+    n = env.eval_tokens(m.group(1).split(" "), apath)
     if len(entries) != n:
-        raise TranslateError("FP_TABLE has %d entries, declared %d" % (len(entries), n))
+        raise TranslateError("FP_TABLE has %d entries, declared %s" % (len(entries), n))
     # write loop
-    m = re.search(r"fn\s+write\s*\(\s*&mut\s+self\s*,\s*data\s*:\s*&\[u8\]\s*\)\s*\{\s*for\s+&b\s+in\s+data\s*\{\s*self\.result\s*=\s*(.*?);\s*\}\s*\}", src, re.S)
-    if not m:
-        raise TranslateError("Rabin::write loop not in the expected shape")
-    step = to_gallina(parse(m.group(1)), {"self.result": "s", "b": "b", "FP_TABLE": "FP_TABLE"})
-    m = re.search(r"impl\s+Default\s+for\s+Rabin\s*\{.*?Rabin\s*\{\s*result\s*:\s*([A-Za-z0-9_x]+)\s*\}", src, re.S)
-    if not m:
+    wfn = the_fn(items, "write", (None, "Rabin"))
+    wbody = N.normalize_body(A.parse_block_tokens(wfn.body), env, apath, "Rabin")
+    GENV = {"s": "s", "b": "b", "FP_TABLE": "FP_TABLE"}
+    try:
+        step = to_gallina(to_rustexpr(step_of_write(wfn, wbody)), GENV)
+    except TranslateError:
+        # the step may have been moved to a private fn of the file: replace the call by its body and retry
+        helpers = N.Helpers(items, env, apath)
+        wbody2 = N.normalize_body(N.inline_helpers(wbody, helpers, wfn), env, apath, "Rabin")
+        if wbody2 == wbody:
+            raise
+        step = to_gallina(to_rustexpr(step_of_write(wfn, wbody2)), GENV)
+    dfn = the_fn(items, "default", ("Default", "Rabin"))
+    dbody = N.unwrap_block(N.normalize_body(A.parse_block_tokens(dfn.body), env, apath, "Rabin"))
+    if not (dbody[0] == "struct" and A.text(dbody[1]) == "Rabin" and len(dbody[2]) == 1 and dbody[2][0][0] == "result" and dbody[3] is None):
         raise TranslateError("Default for Rabin not in the expected shape")
-    init = m.group(1)
-    if init == "EMPTY64":
-        init_g = "EMPTY64"
-    else:
-        init_g = str(int(init.replace("_", ""), 0))
-    m = re.search(r"fn\s+finish\s*\(\s*self\s*\)\s*->\s*\[u8;\s*8\]\s*\{\s*self\.result\.(to_le_bytes|to_be_bytes)\(\)\s*\}", src)
-    if not m:
+    init = env.eval(dbody[2][0][1], apath)
+    if not isinstance(init, int):
+        raise TranslateError("Default for Rabin: the initial state is not a constant")
+    init_g = "EMPTY64" if init == empty else str(init)
+    ffn = the_fn(items, "finish", (None, "Rabin"))
+    ftxt = canon_fn_text(ffn, env, apath, "Rabin")
+    m = re.fullmatch(r"self \. result \. (to_le_bytes|to_be_bytes) \( \)", ftxt)
+    if not m or " ".join(ffn.ret or []) != "[ u8 ; 8 ]":
         raise TranslateError("Rabin::finish not in the expected shape")
     order = "le" if m.group(1) == "to_le_bytes" else "be"
     # write_str must feed the bytes of the str
-    if not re.search(r"fn\s+write_str\s*\(\s*&mut\s+self\s*,\s*s\s*:\s*&str\s*\)\s*->\s*std::fmt::Result\s*\{\s*self\.write\(s\.as_bytes\(\)\);\s*Ok\(\(\)\)\s*\}", src):
+    sfn = the_fn(items, "write_str", ("Write", "Rabin"))
+    if canon_fn_text(sfn, env, apath, "Rabin") != "self . write ( __p0 . as_bytes ( ) ) ; Ok ( ( ) )":
         raise TranslateError("fmt::Write for Rabin not in the expected shape")
     out = []
     out.append("(* GENERATED by translators/gen_rabin.py from %s -- do not edit *)" % ("serde_avro_fast/src/" + path.split("/serde_avro_fast/src/")[-1]))
